@@ -567,7 +567,7 @@ class Interp:
             v = r[1].globals.get(r[2])
             if isinstance(v, ast.Constant) and isinstance(v.value, (str, int, float, bool, type(None))):
                 return const(v.value)
-            if isinstance(v, (ast.Tuple, ast.Dict, ast.List)) and r[2] != "RULE_TYPE":
+            if isinstance(v, (ast.Tuple, ast.Dict, ast.List, ast.Call, ast.Lambda)) and r[2] != "RULE_TYPE":
                 t = self._eval_module_table(r[1], r[2], v)
                 if t is not None:
                     return t
@@ -704,6 +704,8 @@ class Interp:
                 return self.new_list([("s", a), ("s", b)], n, tree)
             if is_const(a) and is_const(b) and type(a[1]) is type(b[1]) and isinstance(a[1], (int, str)):
                 return const(a[1] + b[1])
+        if op == "BitOr" and isinstance(self.obj(a), HDict) and isinstance(self.obj(b), HDict):
+            return self.new_dict([("**", a), ("**", b)], n, tree)        # d1 | d2: a new dict, right-hand entries win
         if op == "Mult" and is_const(a) and is_const(b) and isinstance(a[1], (int, str)) and isinstance(b[1], int):
             return const(a[1] * b[1])
         if op == "Sub" and is_const(a) and is_const(b) and isinstance(a[1], int) and isinstance(b[1], int):
@@ -1041,6 +1043,9 @@ class Interp:
 
     def bind_target(self, st: State, tgt: ast.expr, value, lid=None, iter_term=None):
         if isinstance(tgt, ast.Name):
+            if lid is not None and iter_term is not None and iter_term[0] == "call" and iter_term[1] == "enumerate" and value == ("elem", lid):
+                # ``for pair in enumerate(xs)``: the pair of position and element (as in ``for n, x in enumerate(xs)``)
+                value = ("tuple", (("idx", lid), ("elem", lid)))
             st.env[tgt.id] = value
         elif isinstance(tgt, (ast.Tuple, ast.List)):
             # ``for n, x in enumerate(xs)``
@@ -1179,10 +1184,14 @@ class Interp:
                     a2 = (rx[1],) + tuple(args)
                     tree.append(("extcall", "re." + name, a2, line))
                     return ("call", "re." + name, a2, tuple(sorted(kw2.items())))
+            if name == "update" and isinstance(o, HDict) and len(args) == 1 and not kwargs and self._dict_update(recv, args[0], tree, line):
+                return NONE
             if name in self.MUTATORS:
                 ob_ = self.obj(recv)
                 if ob_ is not None:
                     ob_.dirty = True
+                if name == "extend" and len(args) == 1:
+                    args = [self._strip_or_empty(args[0])]
                 tree.append(("mutate", recv, name, tuple(args), line))
                 if name in ("pop", "popleft", "popitem", "setdefault"):
                     return ("call", "." + name, (recv,) + tuple(args), ())
@@ -1239,8 +1248,7 @@ class Interp:
             fn = args[1] if len(args) == 2 else kw.get("func")
             if fn is not None and self._callable_known(fn):
                 return ("p_accumulate_initial", [args[0], fn, kw["initial"]])
-        if name in ("itertools.takewhile", "itertools.dropwhile") and not kw and len(args) == 2 and self._callable_known(args[0]):
-            return ("p_" + name.rsplit(".", 1)[1], list(args))
+        # takewhile / dropwhile stay symbolic: the rules that meet them (trailing-run trims) read them as such
         if name == "itertools.chain.from_iterable" and not kw and len(args) == 1:
             return ("p_chain_from_iterable", list(args))
         return None
@@ -1278,6 +1286,10 @@ class Interp:
             return ("call", "open", tuple(args), tuple(sorted(kwargs.items())))
         if name == "next":
             tree.append(("extcall", "next", tuple(args), line))
+            # ``next(iter(xs), default)``: the first element of a sequence, else the default
+            if args and args[0][0] == "call" and args[0][1] == "iter" and len(args[0][2]) == 1 and len(args) == 2:
+                xs = args[0][2][0]
+                return mk_cond(xs, self.get_item(st, xs, const(0)), args[1])
             # ``next((e for x in xs if c), default)``: the first element of a filtered scan, else the default
             o = self.obj(args[0]) if args else None
             if isinstance(o, HList) and len(o.segs) == 1 and o.segs[0][0] == "loop" and len(o.segs[0]) > 2 \
@@ -1366,6 +1378,7 @@ class Interp:
         if g.forced is not None:
             return g.forced
         L = self.new_list([], node, tree)
+        self.obj(L).materialised = True      # the analyser's own list of the generator's elements, not a program object
         g.forced = L
 
         def hook(v, gst, gtree, line, is_from=False):
@@ -1813,7 +1826,9 @@ class Interp:
             cur = self.ev(st, tgt, tree)
         o = self.obj(cur)
         if isinstance(o, HList) and op == "Add":
-            tree.append(("mutate", cur, "extend", (y,), s.lineno))
+            tree.append(("mutate", cur, "extend", (self._strip_or_empty(y),), s.lineno))
+            return Outcome(live=st)
+        if isinstance(o, HDict) and op == "BitOr" and self._dict_update(cur, y, tree, s.lineno):
             return Outcome(live=st)
         new = self.ev_BinOp_terms(op, cur, y, s)
         scalar_y = (is_const(y) and isinstance(y[1], (int, float, str))) or (y[0] == "call" and y[1] in ("len", "str", "int")) or y[0] in ("fstr",)
@@ -1822,6 +1837,28 @@ class Interp:
             tree.append(("mutate", cur, "augassign:" + op, (y,), s.lineno))
         self.assign(st, tgt, new, tree, s.lineno)
         return Outcome(live=st)
+
+    def _strip_or_empty(self, y):
+        """``xs or []`` contributes exactly the elements of xs to an extend / += / iteration."""
+        if isinstance(y, tuple) and y and y[0] == "bool" and y[1] == "or" and len(y[2]) == 2:
+            o = self.obj(y[2][1])
+            if isinstance(o, HList) and not o.segs and not getattr(o, "dirty", False):
+                return y[2][0]
+            if y[2][1] == ("tuple", ()):
+                return y[2][0]
+        return y
+
+    def _dict_update(self, target, other, tree, line) -> bool:
+        """``target |= other`` / ``target.update(other)`` with a dict object of known entries: one item store per entry."""
+        oo = self.obj(other)
+        if not isinstance(oo, HDict) or getattr(oo, "dirty", False) or any(e[0] == "**" for e in oo.entries):
+            return False
+        to = self.obj(target)
+        if to is not None:
+            to.dirty = True
+        for k, v in oo.entries:
+            tree.append(("setitem", target, k, v, line))
+        return True
 
     def ev_BinOp_terms(self, op, a, b, n):
         if op == "Add" and is_const(a) and is_const(b) and type(a[1]) is type(b[1]) and isinstance(a[1], (int, str)):
